@@ -216,5 +216,8 @@ func genC18(e *emitter, tier string) {
 	for _, op := range []string{"Gelu", "", "relu", "Identity", "MaxPool", "Dropout", "Conv2D", "LayerNormalization", " Relu", "Relu ", "Relu\n", "\tAbs", "RELU", "Relu6", "Rel", "ai.onnx.Relu", "Relu:13"} {
 		e.emit(graphCase("unknown-op", &GraphJ{Inputs: vin, Nodes: []NodeJ{{Op: "Relu", Ins: []string{"x"}, Outs: []string{"a"}}, {Op: op, Ins: []string{"a"}, Outs: []string{"y"}}, {Op: "Relu", Ins: []string{"y"}, Outs: []string{"z"}}}, Outputs: []string{"z"}}, []NamedT{x}))
 		e.emit(graphCase("unknown-op", &GraphJ{Inputs: vin, Nodes: []NodeJ{{Op: op, Ins: []string{"x"}, Outs: []string{"unused"}}, {Op: "Relu", Ins: []string{"x"}, Outs: []string{"z"}}}, Outputs: []string{"z"}}, []NamedT{x}))
+		// the caller also hands in tensors named like the outputs of the unknown node (and of other nodes)
+		e.emit(graphCase("unknown-op", &GraphJ{Inputs: vin, Nodes: []NodeJ{{Op: "Relu", Ins: []string{"x"}, Outs: []string{"a"}}, {Op: op, Ins: []string{"a"}, Outs: []string{"y"}}, {Op: "Relu", Ins: []string{"y"}, Outs: []string{"z"}}}, Outputs: []string{"z"}},
+			[]NamedT{x, {"y", smallT("f32", []int{2, 2}, 2)}, {"a", smallT("f32", []int{2, 2}, 3)}}))
 	}
 }
